@@ -145,6 +145,9 @@ def render(block, ind=0, counter=None, trace_interrupts=False, walrus_iter=False
             if walrus_iter == "nested":
                 # the assignment expression sits BELOW the top of the iterable expression
                 for_head = "for v%d in (0, (w%d := IT(%%d)))[1]:" % (i, i)
+            if walrus_iter == "getitem":
+                # a sequence in the old protocol (only __getitem__): iter() builds the iterator
+                for_head = "for v%d in GS(%%d):" % i
             if walrus_iter == "iterator":
                 # the loop is over an ITERATOR object: the for statement still takes iter() of it,
                 # once (logged as iter2 by the kit)
